@@ -93,6 +93,7 @@ inductive ReqK where
   | access (sub : SubRef)                                 -- wsConn.Access → loadAccess continuation
   | call (cid : Nat) (req : Nat) (kind : String)          -- kind: call | new
   | auth (cid : Nat) (req : Nat)
+  | httpCall (cid : Nat) (h : Nat) (accessStatus callStatus : Option Int)   -- CallHTTPResource
   deriving Repr, Inhabited
 
 /-- Items of a cache entry's queue (`EventSubscription.queue`). -/
@@ -104,6 +105,7 @@ inductive CItem where
   | unsubscribe (rs : Nat) (sub : SubRef)
   | accessDone (sub : SubRef) (a : Access) (throttle : Option Nat)
   | httpAccessDone (sub : SubRef) (h : Nat) (a : Access) (mstatus : Option Int)
+  | httpCallAccessDone (sub : SubRef) (h : Nat) (action params : String) (a : Access) (mstatus : Option Int)
   | callDone (k : ReqK) (a : CallAns)
   | resetResource (throttle : Option Nat)
   | resetAccess (throttle : Option Nat)
@@ -215,6 +217,8 @@ inductive KItem where
   | tokenEvent (token : String) (tid : String)
   | httpGet (h : Nat) (rid : String)
   | httpAccess (h : Nat) (uid : Nat) (a : Access) (mstatus : Option Int)
+  | httpCall (h : Nat) (rid action params : String)
+  | httpCallAccess (h : Nat) (uid : Nat) (action params : String) (a : Access) (mstatus : Option Int)
   | tokenReset (tids : List String) (subject : String)
   | dispose
   deriving Repr, Inhabited
@@ -250,6 +254,7 @@ inductive MqK where
   | get (entry : Nat) (rs : Nat) (reset : Bool) (th : Option Nat)
   | access (entry : Nat) (sub : SubRef) (th : Option Nat)
   | httpAccess (entry : Nat) (sub : SubRef) (h : Nat)
+  | httpCallAccess (entry : Nat) (sub : SubRef) (h : Nat) (action params : String)
   | call (entry : Nat) (k : ReqK)
   | query (entry : Nat) (rs : Nat)
   | tokenAuth
@@ -274,6 +279,7 @@ structure Gw where
   refThrottle : Int := 0
   resetThrottle : Int := 0
   ord : Nat := 0                              -- iteration order parameter for map ranges
+  ordCtr : Nat := 0                           -- number of randomised map ranges so far (ord ≥ 6)
   flat : Bool := false                        -- apiEncoding jsonflat
   out : Array String := #[]
   panic : Option String := none
